@@ -519,6 +519,7 @@ bool build_x86_function(x86::Compiler& cc, const FuncParams& fp, RecordingHandle
     vals.push_back(v);
   }
   auto any = [&]() -> x86::Gp& { return vals[r.below(vals.size())]; };
+  for (uint32_t i = 0; i < fp.undef_reads; i++) { x86::Gp u = cc.new_gp64("undef%u", i); if (eh.first != Error::kOk) return false; CK(cc.add(any(), u)); }
   x86::Mem stack;
   if (fp.stack) { stack = cc.new_stack(uint32_t(16 + 8 * r.below(8)), 16); if (eh.first != Error::kOk) return false; CK(cc.mov(stack, any())); }
   x86::Vec vec0, vec1;
@@ -661,6 +662,7 @@ bool build_a64_function(a64::Compiler& cc, const FuncParams& fp, RecordingHandle
     vals.push_back(v);
   }
   auto any = [&]() -> a64::Gp& { return vals[r.below(vals.size())]; };
+  for (uint32_t i = 0; i < fp.undef_reads; i++) { a64::Gp u = cc.new_gp64("undef%u", i); if (eh.first != Error::kOk) return false; CK(cc.add(any(), any(), u)); }
   a64::Mem stack;
   if (fp.stack) { stack = cc.new_stack(uint32_t(16 + 8 * r.below(8)), 16); if (eh.first != Error::kOk) return false; CK(cc.str(any(), stack)); }
   for (uint32_t b = 0; b < fp.blocks; b++) {
